@@ -50,6 +50,15 @@ def run(ctx):
         script = [("build", data), ("fill", other, 2, True), ("kl", 1, 2), ("fill", D.random_points(rng, rng.randint(1, 40), d, style), 3, False),
                   ("fill", other, 3, False), ("kl", 2, 3), ("plotly", 1, 2)]
         t2.append(D.session(cfgp, script))
+    # samples in narrow integer types whose values sit near the top (or bottom) of the type's range: a cut is the midpoint of the VALUES
+    for i in range(30 if q else 240):
+        d = rng.randint(1, 3)
+        dt, lo, hi = rng.choice([("uint8", 120, 255), ("uint8", 0, 255), ("int16", -32000, -18000), ("int16", 20000, 32767), ("uint16", 40000, 65535)])          # (32-bit values near the top of their range are left out: TLC's own integers are 32-bit)
+        data = [[rng.randint(lo, hi) for _ in range(d)] for _ in range(rng.randint(8, 100))]
+        other = [[rng.randint(lo, hi) for _ in range(d)] for _ in range(rng.randint(1, 80))]
+        cfgp = {"ub": rng.choice([1, 2, 4, 8]), "lbnum": rng.choice([0, 1]), "lbden": rng.choice([8, 16]), "dtype": dt}
+        script = [("build", data), ("fill", data, 2, True), ("kl", 1, 2), ("fill", other, 3, False), ("kl", 1, 3), ("plotly", 1, 3)]
+        t2.append(D.session(cfgp, script))
     ctx.validate("KdqTree", t2, "random sessions (1-4 dims, up to 400 points) + large fills", sabotage=D.sabotage,
                  replay=lambda i: {"cfg": t2[i]["cfg"], "script": t2[i]["script"]},
                  nontrivial=lambda t: not t["ev"][0]["tree"]["leaf"])
